@@ -11,6 +11,8 @@ import (
 	"crypto"
 	"crypto/rand"
 	"crypto/rsa"
+	"crypto/sha1"
+	"crypto/sha256"
 	"fmt"
 	"math/big"
 	"strconv"
@@ -390,6 +392,114 @@ func (e *env) raw(scheme string, key *rsa.PrivateKey, n int) {
 	}
 }
 
+// rsaRef: PKCS#1 v1.5 signatures produced by the real code are verified by the
+// independent Lean reference (modular exponentiation, EMSA-PKCS1-v1_5, SHA-1/256),
+// bytes compared: the recovered encoded message against math/big, the verdict
+// for genuine, bit-flipped, out-of-range and mis-sized signatures against
+// uapolicy's VerifySignature. Public parts of the committed keys only.
+func (e *env) rsaRef() {
+	algs := map[string]string{"Basic128Rsa15": "sha1", "Basic256": "sha1", "Basic256Sha256": "sha256", "Aes128_Sha256_RsaOaep": "sha256"}
+	sizes := []int{1024, 2048, 3072, 4096}
+	for _, uri := range uapolicy.SupportedPolicies() {
+		pol := short(uri)
+		alg, ok := algs[pol]
+		if !ok {
+			continue // None: no signature; Aes256_Sha256_RsaPss: PSS stays abstract
+		}
+		sp := specBits[pol]
+		for _, bits := range sizes {
+			if bits < sp[0] || bits > sp[1] {
+				continue
+			}
+			for _, who := range []string{"a", "b"} {
+				key := e.key(bits, who)
+				if who == "b" {
+					kp, err := h.LoadKey(e.o.Keys, bits, "b")
+					if err != nil {
+						e.r.InfraError = err.Error()
+						return
+					}
+					key = kp.Key
+				}
+				if key == nil {
+					return
+				}
+				signer, err1 := uapolicy.Asymmetric(uri, key, nil)
+				verifier, err2 := uapolicy.Asymmetric(uri, nil, &key.PublicKey)
+				if err1 != nil || err2 != nil {
+					e.r.Fail("rsaref "+pol, "", fmt.Sprint("constructor: ", err1, err2))
+					continue
+				}
+				nHex := h.Hex(key.PublicKey.N.Bytes())
+				k := key.PublicKey.Size()
+				lens := []int{0, 1, 55, 56, 64, 119, 1000 + e.rnd.Intn(3000)}
+				if !e.o.Thorough() {
+					lens = []int{0, 55 + e.rnd.Intn(10), 500 + e.rnd.Intn(2000)}
+				}
+				for _, n := range lens {
+					msg := e.rnd.Bytes(n)
+					sig, err := signer.Signature(msg)
+					if err != nil {
+						e.r.Fail("rsaref sign "+pol, "", err.Error())
+						continue
+					}
+					ask := func(kind string, m, s []byte) {
+						impl := "bad"
+						if verifier.VerifySignature(m, s) == nil {
+							impl = "ok"
+						}
+						line := fmt.Sprintf("rsaverify %s %s %d %s %s", alg, nHex, key.PublicKey.E, h.Hex(m), h.Hex(s))
+						e.r.Count(line, true)
+						e.r.Hit("rsaref:" + kind + ":" + impl)
+						e.r.Hit(fmt.Sprintf("rsaref-key:%d", bits))
+						if e.d != nil {
+							if got := e.d.Ask(line); got != impl {
+								e.r.Disagree(fmt.Sprintf("rsaverify %s %s bits=%d %s msglen=%d", alg, pol, bits, kind, len(m)), got, impl)
+							}
+						}
+						// oracle on the implementation alone
+						if (kind == "genuine") != (impl == "ok") {
+							e.r.Fail(fmt.Sprintf("rsaref %s %d %s msglen=%d", pol, bits, kind, len(m)), "", "VerifySignature says "+impl)
+						}
+					}
+					ask("genuine", msg, sig)
+					// oracle: what the code calls an RSA-PKCS15-SHAx signature is one for a standard verifier
+					// (crypto/rsa + crypto/sha*, directly, not through uapolicy)
+					hh, hid := sha1.Sum(msg), crypto.SHA1
+					dig := hh[:]
+					if alg == "sha256" {
+						h2 := sha256.Sum256(msg)
+						dig, hid = h2[:], crypto.SHA256
+					}
+					if err := rsa.VerifyPKCS1v15(&key.PublicKey, hid, dig, sig); err != nil {
+						e.r.Fail(fmt.Sprintf("rsaref %s %d standard-verifier msglen=%d msg=%s", pol, bits, n, h.Hex(msg[:min(n, 32)])), "",
+							"the signature uapolicy produced is not a standard RSASSA-PKCS1-v1_5/"+alg+" signature of the message: "+err.Error())
+					}
+					s2 := append([]byte{}, sig...)
+					s2[e.rnd.Intn(len(s2))] ^= 1 << uint(e.rnd.Intn(8))
+					ask("sig-bit-flipped", msg, s2)
+					if n > 0 {
+						m2 := append([]byte{}, msg...)
+						m2[e.rnd.Intn(n)] ^= 1 << uint(e.rnd.Intn(8))
+						ask("msg-bit-flipped", m2, sig)
+					}
+					ask("sig-too-short", msg, sig[1:])
+					ask("sig-equals-modulus", msg, key.PublicKey.N.FillBytes(make([]byte, k)))
+					// the recovered encoded message, byte for byte, against math/big
+					em := new(big.Int).Exp(new(big.Int).SetBytes(sig), big.NewInt(int64(key.PublicKey.E)), key.PublicKey.N).FillBytes(make([]byte, k))
+					line := fmt.Sprintf("rsaem %s %d %s", nHex, key.PublicKey.E, h.Hex(sig))
+					e.r.Count(line, true)
+					e.r.Hit("rsaref:em")
+					e.r.Compare(e.d, line, h.Hex(em))
+					if len(em) < 11 || em[0] != 0 || em[1] != 1 {
+						e.r.Fail("rsaref em "+pol, "", "recovered encoded message does not start with 00 01")
+					}
+				}
+			}
+		}
+	}
+}
+
 func (e *env) nokey() {
 	res := h.Catch(func() string {
 		out := ""
@@ -454,6 +564,7 @@ func (e *env) replay(line string) {
 func (e *env) all() {
 	e.acceptAll()
 	e.nokey()
+	e.rsaRef()
 	sizes := []int{1024, 2048, 3072, 4096}
 	odd := []int{1032, 2056}
 	if e.o.Thorough() {
